@@ -272,10 +272,18 @@ def assembly_cases(draw, q):
 
 @st.composite
 def core_cases(draw, q):
+    tdep = draw(st.booleans())
     spec = draw(gen.core_spec(core_rings=(2, 2) if q else (2, 3), n_types=(1, 3), rings=(2, 3) if q else (2, 4),
                               ducts=(1, 2), gap_models=("flow", "no_flow", "duct_average", "none"),
                               regimes=("lam", "tra", "tur"), n_steps=(15, 40), lowfi=True, regions=False,
-                              comps=("pins", "duct", "cool"), max_cells=2, byp_frac=(0.02, 0.3)))
+                              comps=("pins", "duct", "cool"), max_cells=2, byp_frac=(0.02, 0.3),
+                              coolant=["sodium", "nak", "lead", "sodium_se2anl"] if tdep else "const", duct_const=not tdep,
+                              dT=(40.0, 200.0) if tdep else (5.0, 200.0)))
+    # (temperature-dependent properties with a lazy correlation update: the assemblies refresh their correlated parameters
+    # at different heights, so anything they share makes the result depend on the order they are advanced in - which the
+    # rotation changes)
+    if tdep and draw(st.booleans()):
+        spec["setup"]["param_update_tol"] = gen.r6(draw(gen.logfl(1e-3, 0.1)))
     spec["_sym"] = draw(st.integers(1, 5))
     return spec
 
